@@ -134,6 +134,18 @@ class NumpyProxy(types.ModuleType):
     def ones_like(self, a, dtype=None, **kw):
         return self.ones(_np.shape(a))
 
+    def array(self, obj, dtype=None, *a, **kw):
+        """numpy.array; a float/complex dtype request on symbolic content keeps the object dtype (the copy semantics are kept)."""
+        if has_sym(obj) and (dtype is None or _np.dtype(dtype).kind in "fc"):
+            kw.pop("copy", None)
+            return _np.array(obj, dtype=object)
+        return _np.array(obj, dtype, *a, **kw) if dtype is not None else _np.array(obj, *a, **kw)
+
+    def asarray(self, obj, dtype=None, *a, **kw):
+        if has_sym(obj) and (dtype is None or _np.dtype(dtype).kind in "fc"):
+            return _np.asarray(obj, dtype=object)
+        return _np.asarray(obj, dtype, *a, **kw) if dtype is not None else _np.asarray(obj, *a, **kw)
+
     # -- approximate comparison ------------------------------------------------
     def isclose(self, a, b, rtol=1e-05, atol=1e-08, equal_nan=False):
         na, nb = _numeric_or_none(a), _numeric_or_none(b)
